@@ -292,7 +292,13 @@ func tRun(h tHistory, dir string) (viol []tViolation) {
 	var svc *varlink.Service
 	if h.Transport == "bridge" {
 		os.Setenv("VERIF_BRIDGE_CHILD", "1")
-		os.Setenv("VERIF_BRIDGE_CALLS", fmt.Sprint(len(h.Calls)+2))
+		// a one-shot bridge: it exits as soon as it has written its last reply
+		// (a bridge that is reaped early loses what the client has not read yet)
+		nCalls := len(h.Calls)
+		if h.Final == "oneway-close" {
+			nCalls += 2
+		}
+		os.Setenv("VERIF_BRIDGE_CALLS", fmt.Sprint(nCalls))
 		conn, err = varlink.NewBridgeWithStderr("exec "+os.Args[0]+" -test.run='^TestVerifBridgeChild$'", ioutil.Discard)
 		os.Unsetenv("VERIF_BRIDGE_CHILD")
 		if err != nil {
@@ -388,8 +394,6 @@ func tRun(h tHistory, dir string) (viol []tViolation) {
 			fail("roundtrip", "oneway-send-failed", "%v / %v", err1, err2)
 			marker = ""
 		}
-	} else if h.Transport == "bridge" && len(viol) == 0 {
-		// (the one-shot child waits for two more calls than were made: end of input ends it)
 	}
 	// a library call that does not return is a finding, and this process is done
 	closed := make(chan struct{})
